@@ -14,7 +14,7 @@ Definition resolves (E : env) (u : value) : Prop :=
 Definition builtins_free (E : env) : Prop := forall n, is_builtin n = true -> env_lookup E n = None.
 
 Definition ok1 (W : world) (E : env) (u : value) : Prop :=
-  wf_local W u = true /\ g_enum_local u = true /\ g_raw_local u = true /\ resolves E u.
+  wf_local W u = true /\ g_enum_local u = true /\ g_raw_local u = true /\ g_std_local u = true /\ resolves E u.
 
 (* ---------------------------------------------------------------- calls *)
 Lemma apply_call_lib W E n m k args kws :
@@ -43,8 +43,8 @@ Proof. unfold ints_of. induction l as [|z r IH]; cbn; [reflexivity|]. rewrite IH
 Lemma eval_scalar W E v :
   builtins_free E -> is_container v = false -> ok1 W E v -> eval W E (repr W v) = Some (norm W v).
 Proof.
-  intros HB Hc (Hwf & Hen & Hraw & Hres).
-  destruct v; try discriminate Hc; try reflexivity.
+  intros HB Hc (Hwf & Hen & Hraw & Hstd & Hres).
+  destruct v; try discriminate Hc; try discriminate Hstd; try reflexivity.
   - (* VFloat *)
     cbn [repr norm]. destruct (fl_isfinite bits) eqn:Ef; [reflexivity|].
     cbn [wf_local] in Hwf. rewrite Ef in Hwf. cbn [orb] in Hwf.
@@ -345,7 +345,7 @@ Proof.
       * apply IHk. intros u Hu. apply Hok. rewrite subs_VDict. right. eapply subs_pairs_in; eauto.
       * apply IHx. intros u Hu. apply Hok. rewrite subs_VDict. right. eapply subs_pairs_in; eauto.
   - (* dataclass instance *)
-    destruct (Hok (VObj c fs) (subs_self _ _)) as (Hwf & _ & _ & Hres).
+    destruct (Hok (VObj c fs) (subs_self _ _)) as (Hwf & _ & _ & _ & Hres).
     cbn [wf_local] in Hwf. rewrite repr_VObj, norm_VObj.
     destruct (find_data W c) as [fds|] eqn:Ef; [|discriminate Hwf].
     apply andb_true_iff in Hwf as [Hwf Hns]. apply andb_true_iff in Hwf as [Hwf Hq].
